@@ -442,9 +442,57 @@ def syntax_value_cases():
     return [make_case(specs, t) for specs, t in out]
 
 
+def dec_text(fr):
+    """Exact decimal text of a fraction with a finite decimal expansion."""
+    import decimal
+    with decimal.localcontext() as ctx:
+        ctx.prec = 60
+        d = decimal.Decimal(fr.numerator) / decimal.Decimal(fr.denominator)
+        s = format(d, 'f')
+    if '.' in s:
+        s = s.rstrip('0')
+        s = s + '0' if s.endswith('.') else s
+    return s
+
+
+AMOUNT_EDGE_VALUES = ['0', '0.01', '0.02', '0.5', '1', '100', '12345678.9', '50000000', '999999999.99']
+
+
+def amount_boundary_cases():
+    """Deterministic corpus: every amount modifier form at one value N (small, zero, and so large that a relative
+    tolerance or float spacing matters), all six as tag-only rules of ONE file so that a single transaction shows
+    which of them match; amounts N, N +- {0.005, 1/128, 0.01, 0.02, 0.03, 0.05, 0.06}, the float neighbours of N and
+    the float results of N +- 0.01, and their negations."""
+    import math
+    out = []
+    for N in AMOUNT_EDGE_VALUES:
+        n = Fraction(N)
+        hi = dec_text(n + Fraction(1, 100))
+        specs = [mk('EDGE', 'Eq', '', '', tags=['eq'], mods=[f'[amount={N}]']),
+                 mk('EDGE', 'Gt', '', '', tags=['gt'], mods=[f'[amount>{N}]']),
+                 mk('EDGE', 'Ge', '', '', tags=['ge'], mods=[f'[amount>={N}]']),
+                 mk('EDGE', 'Lt', '', '', tags=['lt'], mods=[f'[amount<{N}]']),
+                 mk('EDGE', 'Le', '', '', tags=['le'], mods=[f'[amount<={N}]']),
+                 mk('EDGE', 'Pt', '', '', tags=['pt'], mods=[f'[amount:{N}-{N}]']),
+                 mk('EDGE', 'Rg', '', '', tags=['rg'], mods=[f'[amount:{N}-{hi}]']),
+                 mk('EDGE', 'Cat', 'C', 'S', mods=[f'[amount={hi}]'])]
+        amts = []
+        for d in ('0', '0.005', '0.0078125', '0.01', '0.0100001', '0.02', '0.03', '0.05', '0.06'):
+            for sg in (1, -1):
+                amts.append(dec_text(n + sg * Fraction(d)))
+        f = float(N)
+        for x in (math.nextafter(f, math.inf), math.nextafter(f, -math.inf), f + 0.01, f - 0.01, f + 0.02, f * (1 + 1e-9), f * (1 - 1e-9)):
+            amts.append(dec_text(Fraction(repr(x))) if 'e' not in repr(x) else None)
+        amts = [a for a in dict.fromkeys(amts) if a is not None]
+        amts += ['-' + a for a in amts[:6] if not a.startswith('-') and Fraction(a) != 0]
+        out.append((specs, [tx('EDGE CASE', a) for a in amts]))
+    return [make_case(specs, t) for specs, t in out]
+
+
 def gen_cases(seed, n, today):
     rnd = random.Random(seed)
-    cases = interaction_cases() + separator_cases() + escape_pair_cases() + quoting_cases() + syntax_value_cases()
+    cases = (interaction_cases() + separator_cases() + escape_pair_cases() + quoting_cases() + syntax_value_cases()
+             + amount_boundary_cases())
     # boundary stream: every hazard pattern alone, every safe pattern alone with one modifier of each kind
     for hz, pool in (('backslash', HAZ_BACKSLASH), ('quote', HAZ_QUOTE), ('paren', HAZ_PAREN), ('case', HAZ_CASE)):
         for pat, descs in pool:
@@ -891,6 +939,9 @@ def coq_subcase(sub, txns, today, tabs_src, stats, with_text=True):
             stats['txn_skipped_non_ascii_upper'] = stats.get('txn_skipped_non_ascii_upper', 0) + 1
             continue
         a = units(t['a'])
+        if a is None:
+            stats['txn_skipped_amount_not_in_model_unit'] = stats.get('txn_skipped_amount_not_in_model_unit', 0) + 1
+            continue
         leg, mig = sub['legacy'][i], (sub.get('migrated') or [None] * len(txns))[i]
         # float tolerance: keep the transaction only if abs(a-v) < 0.01 is decided the same exactly and in floats
         inexact = False
